@@ -11,7 +11,7 @@ RULE = ("conv probe, abandoned transfers: a chunked transfer given up by RSET / 
         "(source ends with EOF or a scripted error), with and without size limit, 3 read schedules; random streams cut "
         "at random points. non-trivial = the cut stream is non-empty and contains '.', CR or LF")
 THEOREMS = ["C07_data_cut", "C07_eof_complete", "data_monitor_accepts_model",
-            "C07_bdat_eof_only_after_last", "C07_abandoned_is_reset", "C07_reset_close_no_eof"]
+            "C07_bdat_eof_only_after_last", "C07_abandoned_is_reset", "C07_reset_close_no_eof", "C07_cut_connection_no_eof"]
 nontrivial = lambda case, ans: dc.nontrivial_stream(case) if case.startswith('dr') else cc.nontrivial(case, ans)
 signature = lambda case, ans: dc.signature(case, ans) if case.startswith('dr') else cc.signature(case, ans)
 mutate = lambda case, rng: dc.mutate(case, rng) if case.startswith('dr') else []
